@@ -41,6 +41,7 @@ func (e freeEnv) Pre() any                         { return nil }
 func (e freeEnv) Post(h any)                       {}
 func (e freeEnv) Sync()                            {}
 func (e freeEnv) Sleep(ns int64)                   {}
+func (e freeEnv) Snooze(int)                       {}
 func (e freeEnv) Seq() int64                       { return 0 }
 func (e freeEnv) Event(kind, detail string)        {}
 func (e freeEnv) Probe(name string)                {}
